@@ -421,12 +421,15 @@ def parse(expr):
     from pymbolic import var
 
     def remove_backticks(expr):
+        # None means "no substitution here": the mapper then descends into
+        # expr (it also asks for subscripts and attribute lookups, whose
+        # aggregates may be backtick-quoted names).
         if not isinstance(expr, var):
-            return expr
+            return None
         varname = expr.name
         if varname.startswith("`") and varname.endswith("`"):
             return var(varname[1:-1])
-        return expr
+        return None
 
     from pymbolic.mapper.substitutor import SubstitutionMapper
     parser = _ExtendedParser()
